@@ -229,6 +229,7 @@ class C12(System):
             st.snaps.append((st.s.get_data(), st.m.copy()))
         if pair is not None:
             st.snaps.append((build_stream(pair).get_data(), model_of(pair)))
+        self._probe_views(st)
         for v in self._mass_views(st): raise v
         return st
 
@@ -369,8 +370,43 @@ class C12(System):
                                  match=dict(op='read-mass-view', exc=type(e).__name__)))
         return out
 
+    def _probe_views(self, st):
+        """Fetch s[p] for EVERY phase of a multi-phase stream and prove that what is handed out is a live view: it reads the
+        parent's row, a write through the parent is read by the view, a write through the view is read by the parent (the
+        second write restores the entry), same T and P.  Run inside build/step (fetching creates cached sub-streams), so also
+        right after a multi -> single -> multi round trip, whatever was cached before the collapse."""
+        s = st.s; m = st.m
+        if m.kind != 'M': return
+        op = st.last[0] if st.last else 'init'
+        ID = st.IDs[0]
+        for p in m.phases:
+            try:
+                v = s[p]
+                if v.phase != p:
+                    raise Violation('view-phase', f's[{p!r}].phase == {v.phase!r}', match=dict(op=op, view='fetched'))
+                vr = [float(x) for x in np.asarray(v.mol.to_array(), float)]
+                if vr != m.rows[p]:
+                    raise Violation('view-stale', f'after {st.last!r}: s[{p!r}] reads {vr}, parent row is {m.rows[p]}', match=dict(view='fetched', after=op))
+                if float(v.T) != m.T or float(v.P) != m.P:
+                    raise Violation('view-TP', f'after {st.last!r}: s[{p!r}] has T,P {v.T},{v.P}; parent {m.T},{m.P}', match=dict(view='fetched', writer='parent'))
+                old = m.rows[p][0]
+                s.imol[p, ID] = old + 1.0
+                got = float(v.imol[ID])
+                if got != old + 1.0:
+                    raise Violation('view-stale', f'after {st.last!r}: wrote {old + 1.0} to the parent\'s ({p!r}, {ID}); the view s[{p!r}] fetched afterwards reads {got}',
+                                    match=dict(view='fetched', after=op, probe='parent-write'))
+                v.imol[ID] = old
+                got = float(s.imol[p, ID])
+                if got != old:
+                    raise Violation('view-write-lost', f'after {st.last!r}: wrote {old} through s[{p!r}]; the parent reads {got}', match=dict(view='fetched', what='probe'))
+            except Violation: raise
+            except Exception as e:
+                raise Violation('unexpected-exception', f'after {st.last!r}: fetching / probing s[{p!r}] raised {type(e).__name__}: {e}',
+                                match=dict(op='fetch-view', exc=type(e).__name__))
+
     def step(self, st, a):
         obs = self._step(st, a)
+        self._probe_views(st)
         for v in self._mass_views(st): raise v
         return obs
 
